@@ -14,10 +14,14 @@ import (
 	"sort"
 	"strings"
 	"sync"
+	"sync/atomic"
 	"testing"
+	"time"
 
 	"github.com/33cn/chain33/common/merkle"
+	"github.com/33cn/chain33/queue"
 	"github.com/33cn/chain33/types"
+	"github.com/33cn/chain33/util"
 	"golang.org/x/sys/unix"
 
 	"verifsim/simrt"
@@ -121,6 +125,14 @@ func (c18) Generate(prop string, r *simrt.RNG, tier string, run int) *simrt.Scen
 			m = 2 * r.Range(1, 12) // even: a near miss, must NOT collide
 		}
 		sc.Ops = append(sc.Ops, simrt.Op{K: "dup", I: []int64{int64(lvl), int64(m), seed(), int64(r.Intn(4))}})
+	}
+	// (5) the root a produced block carries when some transactions fail outright
+	for k := 0; k < 3; k++ {
+		op := simrt.Op{K: "produce", I: []int64{0, seed(), int64(r.Intn(2))}}
+		for j, m := 0, r.Range(1, 9); j < m; j++ {
+			op.Sub = append(op.Sub, simrt.Op{K: "r", I: []int64{int64([]int32{types.ExecOk, types.ExecOk, types.ExecPack, types.ExecErr}[r.Intn(4)])}})
+		}
+		sc.Ops = append(sc.Ops, op)
 	}
 	return sc
 }
@@ -276,6 +288,8 @@ func c18Op(ctx *simrt.Ctx, op *simrt.Op, workers int) (v *simrt.Violation) {
 			v = c18Multi(ctx, op)
 		case "dup":
 			v = c18Dup(ctx, int(op.Int(0)), int(op.Int(1)), op.Int(2), int(op.Int(3)))
+		case "produce":
+			v = c18Produce(ctx, op)
 		}
 	}
 	return v
@@ -732,4 +746,125 @@ func tail(s string, n int) string {
 		return s[len(s)-n:]
 	}
 	return s
+}
+
+// ---------------------------------------------------------------------------
+// the root a produced block carries (util.PreExecBlock)
+
+// stubBus answers what util.PreExecBlock asks of the other modules: no
+// duplicates on the chain, the scripted receipts from the executor, a fixed
+// state hash from the store.
+type stubBus struct {
+	queue.Client // nil: any other call is a harness error (panics)
+	cfg          *types.Chain33Config
+	receipts     []*types.Receipt
+	id           int64
+}
+
+func (c *stubBus) GetConfig() *types.Chain33Config { return c.cfg }
+func (c *stubBus) NewMessage(topic string, ty int64, data interface{}) *queue.Message {
+	// (PreExecBlock's duplicate check runs on its own goroutine)
+	return queue.NewMessage(atomic.AddInt64(&c.id, 1), topic, ty, data)
+}
+func (c *stubBus) FreeMessage(...*queue.Message)                         {}
+func (c *stubBus) Send(*queue.Message, bool) error                       { return nil }
+func (c *stubBus) SendTimeout(*queue.Message, bool, time.Duration) error { return nil }
+func (c *stubBus) WaitTimeout(m *queue.Message, _ time.Duration) (*queue.Message, error) {
+	return c.Wait(m)
+}
+func (c *stubBus) Wait(in *queue.Message) (*queue.Message, error) {
+	switch in.Ty {
+	case types.EventTxHashList:
+		return &queue.Message{Data: &types.TxHashList{}}, nil
+	case types.EventExecTxList:
+		return &queue.Message{Data: &types.Receipts{Receipts: c.receipts}}, nil
+	case types.EventStoreMemSet, types.EventStoreRollback, types.EventStoreCommit:
+		return &queue.Message{Data: &types.ReplyHash{Hash: bytes.Repeat([]byte{7}, 32)}}, nil
+	case types.EventCheckBlock:
+		return &queue.Message{Data: &types.Reply{IsOk: true}}, nil
+	}
+	return &queue.Message{Data: &types.Reply{IsOk: true}}, nil
+}
+
+var (
+	c18CfgOnce           sync.Once
+	c18CfgNew, c18CfgOld *types.Chain33Config
+)
+
+// c18Produce: I=[n, seed, oldRules]; Sub "r" ops give each transaction's receipt
+// type. The node produces a block from n transactions of which some fail
+// outright (and are dropped): the root written into the block must be the root
+// of the transactions that stay, under the rules before and after ForkRootHash.
+func c18Produce(ctx *simrt.Ctx, op *simrt.Op) *simrt.Violation {
+	c18CfgOnce.Do(func() {
+		c18CfgNew = types.NewChain33Config(types.GetDefaultCfgstring())
+		c18CfgOld = types.NewChain33Config(types.GetDefaultCfgstring())
+		c18CfgOld.SetFork("ForkRootHash", 1<<40)
+	})
+	cfg := c18CfgNew
+	rules := "after-ForkRootHash"
+	if op.Int(2) == 1 {
+		cfg, rules = c18CfgOld, "before-ForkRootHash"
+	}
+	n := len(op.Sub)
+	if n == 0 {
+		return nil
+	}
+	bus := &stubBus{cfg: cfg}
+	var txs []*types.Transaction
+	var keep []*types.Transaction
+	rng := simrt.NewRNG(uint64(op.Int(1)))
+	for i := 0; i < n; i++ {
+		exec := "none"
+		if rng.Chance(1, 4) {
+			exec = fmt.Sprintf("user.p.%s.none", []string{"a", "b"}[rng.Intn(2)])
+		}
+		tx := &types.Transaction{Execer: []byte(exec), Payload: []byte(fmt.Sprintf("p-%d-%d", op.Int(1), i)), Nonce: op.Int(1) + int64(i), Fee: 100000, To: "1DeAdBeEf"}
+		tx.Signature = &types.Signature{Ty: 1, Pubkey: []byte{2, byte(i)}, Signature: []byte{byte(i), 9}}
+		ty := int32(op.Sub[i].Int(0))
+		bus.receipts = append(bus.receipts, &types.Receipt{Ty: ty})
+		txs = append(txs, tx)
+		if ty != types.ExecErr {
+			keep = append(keep, tx)
+		}
+	}
+	if cfg.IsFork(10, "ForkRootHash") {
+		txs = types.TransactionSort(txs)
+		// (receipts are positional: re-derive which stay after the sort)
+		keep = keep[:0]
+		for i, tx := range txs {
+			_ = tx
+			if bus.receipts[i].Ty != types.ExecErr {
+				keep = append(keep, txs[i])
+			}
+		}
+	}
+	block := &types.Block{Height: 10, Txs: txs}
+	detail, _, err := util.PreExecBlock(bus, nil, block, false, true, false)
+	if err != nil {
+		if len(keep) == 0 {
+			return nil
+		}
+		return ctx.Violate("produced-root", "PreExecBlock-error/"+rules, "producing a block of %d transactions (%d stay) failed: %v", n, len(keep), err)
+	}
+	ctx.Probe("produced_block_root_checked")
+	if len(keep) < n {
+		ctx.Probe("produced_block_with_dropped_tx")
+	}
+	if len(detail.Block.Txs) != len(keep) {
+		return ctx.Violate("produced-root", "kept-transactions/"+rules, "%d transactions stay in the produced block, expected %d", len(detail.Block.Txs), len(keep))
+	}
+	want := merkle.CalcMerkleRoot(cfg, 10, detail.Block.Txs)
+	if !bytes.Equal(want, detail.Block.TxHash) {
+		return ctx.Violate("produced-root", "root-of-other-list/"+rules, "the produced block (%d of %d transactions stay, receipt types %v) carries transaction root %x, the root of the transactions in it is %x", len(keep), n, receiptTypes(bus.receipts), detail.Block.TxHash, want)
+	}
+	return nil
+}
+
+func receiptTypes(rs []*types.Receipt) []int32 {
+	var o []int32
+	for _, r := range rs {
+		o = append(o, r.Ty)
+	}
+	return o
 }
